@@ -605,3 +605,13 @@ _t(
     kept=["/t10/old", "/t10/c", "/t10/f"],
 )
 T["T10"].modules["tq.zclash"] = {"a": clash_source(T["T10"])}
+
+# ---------------------------------------------------------------- T1main: the T1 program living in the __main__ module (a script)
+_t(
+    "T1main",
+    [("__main__", dict(T["T1"].modules["tq.m1"]))],
+    leaves=[("__main__", "G", "int", True), ("__main__", "H", "int", False)],
+    entry=("__main__", "f"),
+    kept=["/t1/f"],
+    accepted=(),
+)
